@@ -6,7 +6,7 @@ META = dict(
     technique="Coq: executable model of raft.rs evaluated on fault-free schedules (vm_compute / reflective exploration, bounds in the statements); "
               "timed fault-free simulation of the real raft.rs under a virtual clock with the configured timeouts, replayed event by event on the extracted model",
     level_text="Machine-checked for the model, partial with respect to the unbounded property: the statements pinned in coq/Props/C30.v (cluster sizes, schedules and number of appended "
-               "entries are written in each statement) say that a fault-free run elects exactly one leader and ends with every appended entry present and committed on every node. "
+               "entries are written in each statement) say that a fault-free run elects exactly one leader and ends with every appended entry present and committed on every node: for 3 nodes EVERY interleaving of the deliveries (election by node 0's timer, two appends, a heartbeat round; reflective exhaustive exploration with a proved soundness lemma), for 3 and 5 nodes the oldest-first schedule. "
                "On the real code every run simulates healthy 3- and 5-node clusters with the configured timeouts (virtual clock, several tick granularities and message latencies, "
                "1-3 client appends), requires convergence to one leader with equal, fully committed logs, and replays the recorded event list on the extracted model comparing the "
                "complete cluster state after every event.",
